@@ -763,6 +763,16 @@ class HandshakeSettings(object):
             raise ValueError("Session ticket encryption keys must be 16 or 32"
                              "bytes long")
 
+        # the key has to fit the selected cipher
+        if other.ticketCipher in ("aes128gcm", "aes128ccm", "aes128ccm_8"):
+            key_len = 16
+        else:
+            key_len = 32
+        if HandshakeSettings._not_allowed_len(other.ticketKeys, [key_len]):
+            raise ValueError("Session ticket encryption keys for {0} must be "
+                             "{1} bytes long".format(other.ticketCipher,
+                                                     key_len))
+
         if not 0 < other.ticketLifetime <= 7 * 24 * 60 * 60:
             raise ValueError("Ticket lifetime must be a positive integer "
                              "smaller or equal 604800 (7 days)")
